@@ -163,6 +163,19 @@ func c06Valid() []string {
 			}
 		}
 	}
+	// chains of fields each defined through the previous one twice: analysis
+	// must not follow every path through the chain (2^n of them)
+	for _, n := range []int{6, 14, 40} {
+		fs := []string{"strlen(key) as a0"}
+		for i := 1; i <= n; i++ {
+			fs = append(fs, fmt.Sprintf("a%d + a%d as a%d", i-1, i-1, i))
+		}
+		w := "key = 'nosuchkey'"
+		if n <= 14 {
+			w = "true"
+		}
+		add("select "+strings.Join(fs, ", ")+" where "+w, "select "+strings.Join(fs, ", ")+" where a"+fmt.Sprint(n)+" > 0 & "+w)
+	}
 	// limit windows whose bounds do not fit an int when added up
 	for _, lim := range []string{"1, 9223372036854775807", "9223372036854775807, 1", "2, 9223372036854775806", "9223372036854775807", "9223372036854775807, 9223372036854775807",
 		"99999999999999999999", "1, 99999999999999999999", "0, 0", "4611686018427387904, 4611686018427387904"} {
